@@ -88,17 +88,19 @@ G_Fault(k, t) ==
        [] OTHER -> FALSE
   \* a task that dies owing its answer: the answer was already on its way (delivered by "latereply")
   /\ late' = IF txgate = "owed" /\ ~alive'[owedT] THEN late \cup {owedT} ELSE late
-  \* this script step is the update itself; G_FaultRecon is the same status learnt through reconciliation
+  \* this script step is the update itself; G_FaultVia is the same status learnt another way
   /\ \A m \in msgs' \ msgs : m.type = "status" => m.via = "direct"
   /\ Step(<<"fault", k, t>>)
   /\ UNCHANGED <<wgate, txgate, owedT, fgate, mgate, sgate, extra, lateMode, shape>>
 
-G_FaultRecon(k, t) ==
-  /\ Stable /\ extra = "none" /\ txgate = "none" /\ k \in StatusKinds /\ "recon" \in Vias
+\* (in the "mup" family: after the master-generated TASK_RUNNING update of the same or another task)
+G_FaultVia(k, t, via) ==
+  /\ Stable /\ txgate = "none" /\ k \in StatusKinds /\ via \in Vias \ {"direct"}
+  /\ extra = "none" \/ (extra = "mup" /\ script # <<>>)
   /\ TaskTerminal(k, t)
-  /\ \A m \in msgs' \ msgs : m.type = "status" => m.via = "recon"
+  /\ \A m \in msgs' \ msgs : m.type = "status" => m.via = via
   /\ late' = late
-  /\ Step(<<"fault", k, t, "recon">>)
+  /\ Step(<<"fault", k, t, via>>)
   /\ UNCHANGED <<wgate, txgate, owedT, fgate, mgate, sgate, extra, lateMode, shape>>
 
 \* the racing API transition, parked early (lock acquired, nothing sent) or late (state entered, lock held)
@@ -210,7 +212,7 @@ GenInit ==
 
 GenNext ==
   \/ G_Pipeline
-  \/ \E k \in Kinds, t \in Tasks : G_Fault(k, t) \/ G_FaultRecon(k, t)
+  \/ \E k \in Kinds, t \in Tasks : G_Fault(k, t) \/ (\E via \in Vias : G_FaultVia(k, t, via))
   \/ \E g \in {"early", "late"} : G_Api(g)
   \/ G_ArmW \/ G_ReleaseW \/ G_ReleaseTx
   \/ \E t \in Tasks : G_ApiOwed(t) \/ G_Stale(t) \/ G_MasterUpdate(t, "noexec") \/ G_MasterUpdate(t, "noids")
